@@ -692,14 +692,25 @@ class Engine:
     INT_MAX_OF = {'unsigned char': 255, 'unsigned short': 65535, 'unsigned int': (1 << 32) - 1, 'int': (1 << 31) - 1,
                   'short': 32767, 'signed char': 127, 'char': 127}
 
-    def narrow_wraps(self, terms, facts):
+    def narrow_wraps(self, terms, facts, maximal=False):
         """arithmetic subterms of `terms` that are carried out in a type narrower than 64 bits and are not proved to
-        stay within that type under `facts` plus the value ranges of their narrow atoms -> [(term, type, why)]"""
+        stay within that type under `facts` plus the value ranges of their narrow atoms -> [(term, type, why)].
+        With `maximal`, only the outermost sum/difference of each unsigned chain is examined: unsigned arithmetic is
+        arithmetic modulo 2^w, so an intermediate result may wrap as long as the value finally used is the mathematical one
+        (`addr + n - 1` with addr + n == 2^w)."""
         out = []
         seen = set()
+        inner = set()
+        if maximal:
+            for t0 in terms:
+                for t in subterms(t0):
+                    if t in self.optype and t[0] in ('+', '-') and self.optype[t].replace('const ', '').strip().startswith('unsigned'):
+                        for ch in t[1:]:
+                            if isinstance(ch, tuple) and ch in self.optype and self.optype[ch] == self.optype[t]:
+                                inner.add(ch)
         for t0 in terms:
             for t in subterms(t0):
-                if t in seen or t not in self.optype:
+                if t in seen or t not in self.optype or t in inner:
                     continue
                 seen.add(t)
                 qt = self.optype[t].replace('const ', '').strip()
